@@ -65,6 +65,7 @@ func (w *FindRules) Do(ctx *Context, loc *Location) {
 			w.Disposition = &Condition{err.Error(), "nonfatal"}
 			return
 		}
+		rule.Id = id
 		rs = make(map[string]*Rule)
 		rs[id] = rule
 	} else {
@@ -82,6 +83,7 @@ func (w *FindRules) Do(ctx *Context, loc *Location) {
 				w.Disposition = &Condition{err.Error(), "nonfatal"}
 				return
 			}
+			rule.Id = "embedded"
 			rs = make(map[string]*Rule)
 			rs["embedded"] = rule
 		} else {
@@ -97,7 +99,9 @@ func (w *FindRules) Do(ctx *Context, loc *Location) {
 	w.Children = make([]*EvalRule, 0, 0)
 	for id, rule := range rs {
 		Log(DEBUG, ctx, "FindRules.Do", "rid", id)
-		rule.Id = id
+		// Every rule knows its id by now: rules that come out
+		// of a state's cache are shared with concurrent events,
+		// so we do not write to them here.
 
 		var bss []Bindings
 		var err error
